@@ -26,6 +26,8 @@ pub enum Kind {
     /// dec(1) and a burst of 15 of them: backwards moves obey the same token bucket
     Dec,
     DecBurst,
+    /// reset() followed by a burst of 15 incs: a reset does not mint position tokens
+    ResetIncBurst,
     /// MultiProgress only: two bars are inserted at the top and dropped again, lower one first (the
     /// draws this forces are not ordinary requests and are not counted), then an ordinary tick of bar a
     ChurnTick,
@@ -111,6 +113,8 @@ struct Run {
     reach_a: Vec<u64>,
     /// times at which an inc on bar a reached the bar (was not refused by the position bucket)
     inc_reach: Vec<u64>,
+    /// every inc/dec call on bar a: (time, reached the bar)
+    inc_calls: Vec<(u64, bool)>,
     /// (time, kind, frames before, frames after, expected rows after the call)
     calls: Vec<(u64, Kind, usize, usize, Vec<String>)>,
     /// index ranges of frames painted by forced draws (structural changes)
@@ -147,6 +151,7 @@ impl C05 {
         let (mut pa, mut pb_, mut msg) = (0u64, 0u64, 0u64);
         let mut calls = Vec::new();
         let mut inc_reach: Vec<u64> = Vec::new();
+        let mut inc_calls: Vec<(u64, bool)> = Vec::new();
         let nframes = |spy: &Spy| spy.st().frames.as_ref().map_or(0, |f| f.len());
         let mut drawn_b = false;
         let mut drawn_a = false;
@@ -156,9 +161,28 @@ impl C05 {
             clock::advance_ns(ev.gap_ns);
             let reps = match ev.kind {
                 Kind::Burst => 25,
-                Kind::IncBurst | Kind::DecBurst => 15,
+                Kind::IncBurst | Kind::DecBurst | Kind::ResetIncBurst => 15,
                 _ => 1,
             };
+            if ev.kind == Kind::ResetIncBurst {
+                // reset() is an ordinary redraw request of its own
+                let before = nframes(&spy);
+                let t = clock::now_ns();
+                if let Err(p) = catch(|| a.reset()) {
+                    return Err(p);
+                }
+                pa = 0;
+                drawn_a = true;
+                let m = if msg == 0 { String::new() } else { format!("m{msg}") };
+                let mut rows = vec![format!("a{} {}", pa, m).trim_end().to_string()];
+                if self.target == Target::Multi && drawn_b {
+                    rows.push(format!("b{}", pb_));
+                }
+                calls.push((t, Kind::Tick, before, nframes(&spy), rows));
+                // the position bucket's clock restarts with the bar
+                inc_calls.push((t, true));
+                inc_calls.push((u64::MAX, false));
+            }
             for _ in 0..reps {
                 if ev.kind == Kind::ChurnTick {
                     let f0 = nframes(&spy);
@@ -179,7 +203,7 @@ impl C05 {
                 let reach0 = reach.times.lock().unwrap().len();
                 let r = catch(|| match ev.kind {
                     Kind::Tick | Kind::Burst | Kind::ChurnTick => a.tick(),
-                    Kind::Inc | Kind::IncBurst => a.inc(1),
+                    Kind::Inc | Kind::IncBurst | Kind::ResetIncBurst => a.inc(1),
                     Kind::Dec | Kind::DecBurst => a.dec(1),
                     Kind::Msg => a.set_message(format!("m{}", msg + 1)),
                     Kind::SetPos => a.set_position(pa + 1),
@@ -190,11 +214,15 @@ impl C05 {
                 if let Err(p) = r {
                     return Err(p);
                 }
-                if matches!(ev.kind, Kind::Inc | Kind::IncBurst | Kind::Dec | Kind::DecBurst) && reach.times.lock().unwrap().len() > reach0 {
-                    inc_reach.push(t);
+                if matches!(ev.kind, Kind::Inc | Kind::IncBurst | Kind::Dec | Kind::DecBurst | Kind::ResetIncBurst) {
+                    let reached = reach.times.lock().unwrap().len() > reach0;
+                    if reached {
+                        inc_reach.push(t);
+                    }
+                    inc_calls.push((t, reached));
                 }
                 match ev.kind {
-                    Kind::Inc | Kind::IncBurst | Kind::SetPos => pa = pa.wrapping_add(1),
+                    Kind::Inc | Kind::IncBurst | Kind::SetPos | Kind::ResetIncBurst => pa = pa.wrapping_add(1),
                     Kind::Dec | Kind::DecBurst => pa = pa.wrapping_sub(1),
                     Kind::IncB => pb_ += 1,
                     Kind::Msg => msg += 1,
@@ -218,7 +246,7 @@ impl C05 {
         let frames = spy.st().frames.take().unwrap_or_default();
         let reach_a = reach.times.lock().unwrap().clone();
         let _ = catch(move || drop((a, b, mp)));
-        Ok(Run { frames, reach_a, inc_reach, calls, forced })
+        Ok(Run { frames, reach_a, inc_reach, inc_calls, calls, forced })
     }
 
     fn judge(&self, run: &Run) -> Result<(), (String, String)> {
@@ -241,6 +269,26 @@ impl C05 {
                 return Err(("position bucket: more than 10 + T/1ms + 1 inc/dec-driven redraw requests in a window".into(), format!("{} requests within {} ns", j - i + 1, inc_reach[j] - inc_reach[i])));
             }
         }
+        // (c') the bucket refills one token per millisecond: a report arriving at least 1 ms after the
+        // last admitted one is admitted
+        {
+            let mut last_admitted: Option<u64> = None;
+            for &(t, reached) in &run.inc_calls {
+                if t == u64::MAX {
+                    // marker: reset() — the law is not applied across it
+                    last_admitted = None;
+                    continue;
+                }
+                if let Some(la) = last_admitted {
+                    if t - la >= 1_000_000 && !reached {
+                        return Err(("position bucket: a report arriving at least 1 ms after the last admitted one is swallowed".into(), format!("report at {t} ns, last admitted at {la} ns")));
+                    }
+                }
+                if reached {
+                    last_admitted = Some(t);
+                }
+            }
+        }
         // (b) staleness, (d) content
         let mut last_frame_t: Option<u64> = None;
         for (t, kind, before, after, rows) in &run.calls {
@@ -253,11 +301,11 @@ impl C05 {
             }
             if let Some(lf) = last_frame_t {
                 let need = match kind {
-                    Kind::Inc | Kind::IncBurst | Kind::IncB | Kind::SetPos | Kind::SetPosSame | Kind::Dec | Kind::DecBurst => i_ns + 1_000_000,
+                    Kind::Inc | Kind::IncBurst | Kind::IncB | Kind::SetPos | Kind::SetPosSame | Kind::Dec | Kind::DecBurst | Kind::ResetIncBurst => i_ns + 1_000_000,
                     _ => i_ns,
                 };
                 if t - lf >= need && !painted {
-                    let class = if matches!(kind, Kind::Inc | Kind::IncBurst | Kind::IncB | Kind::SetPos | Kind::SetPosSame | Kind::Dec | Kind::DecBurst) { "staleness: an inc arriving more than one refresh interval + 1 ms after the last frame is not painted" } else { "staleness: a redraw request arriving at least one refresh interval after the last frame is not painted" };
+                    let class = if matches!(kind, Kind::Inc | Kind::IncBurst | Kind::IncB | Kind::SetPos | Kind::SetPosSame | Kind::Dec | Kind::DecBurst | Kind::ResetIncBurst) { "staleness: an inc arriving more than one refresh interval + 1 ms after the last frame is not painted" } else { "staleness: a redraw request arriving at least one refresh interval after the last frame is not painted" };
                     return Err((class.into(), format!("request {:?} at {} ns, last frame at {} ns, interval {} ns", kind, t, lf, i_ns)));
                 }
             }
@@ -357,7 +405,7 @@ fn configs(tier: Tier) -> Vec<(C05, usize)> {
                 v.push((C05 { r, target: Target::Single, kinds: vec![Kind::Tick, Kind::Burst], gaps: draw_gaps(r), name: "draw-limiter" }, d));
             }
             for &r in &[20u8, 255] {
-                v.push((C05 { r, target: Target::Single, kinds: vec![Kind::Inc, Kind::IncBurst, Kind::Dec, Kind::DecBurst], gaps: pos_gaps(r), name: "position-bucket" }, 3));
+                v.push((C05 { r, target: Target::Single, kinds: vec![Kind::Inc, Kind::IncBurst, Kind::Dec, Kind::DecBurst, Kind::ResetIncBurst], gaps: pos_gaps(r), name: "position-bucket" }, 3));
                 v.push((C05 { r, target: Target::Multi, kinds: vec![Kind::Tick, Kind::Burst, Kind::TickB, Kind::IncB, Kind::ChurnTick], gaps: vec![0, 1, interval_ns(r) - 1, interval_ns(r), 20 * interval_ns(r), 21 * interval_ns(r) + 1], name: "multi" }, 3));
                 v.push((C05 { r, target: Target::Single, kinds: vec![Kind::Tick, Kind::Inc, Kind::Burst, Kind::Msg, Kind::SetPos, Kind::SetPosSame], gaps: vec![0, 1_000_000, interval_ns(r) - 1, interval_ns(r) + 1_000_000, 21 * interval_ns(r) + 1], name: "mixed" }, 3));
             }
@@ -368,7 +416,7 @@ fn configs(tier: Tier) -> Vec<(C05, usize)> {
                 v.push((C05 { r, target: Target::Single, kinds: vec![Kind::Tick, Kind::Burst], gaps: draw_gaps(r), name: "draw-limiter" }, d));
             }
             for &r in few {
-                v.push((C05 { r, target: Target::Single, kinds: vec![Kind::Inc, Kind::IncBurst, Kind::Dec, Kind::DecBurst], gaps: pos_gaps(r), name: "position-bucket" }, 4));
+                v.push((C05 { r, target: Target::Single, kinds: vec![Kind::Inc, Kind::IncBurst, Kind::Dec, Kind::DecBurst, Kind::ResetIncBurst], gaps: pos_gaps(r), name: "position-bucket" }, 4));
                 v.push((C05 { r, target: Target::Multi, kinds: vec![Kind::Tick, Kind::Burst, Kind::TickB, Kind::IncB, Kind::ChurnTick], gaps: vec![0, 1, interval_ns(r) - 1, interval_ns(r), 20 * interval_ns(r), 21 * interval_ns(r) + 1], name: "multi" }, 4));
                 v.push((C05 { r, target: Target::Single, kinds: vec![Kind::Tick, Kind::Inc, Kind::Burst, Kind::Msg, Kind::SetPos, Kind::SetPosSame], gaps: vec![0, 1_000_000, interval_ns(r) - 1, interval_ns(r) + 1_000_000, 21 * interval_ns(r) + 1], name: "mixed" }, 4));
             }
